@@ -106,7 +106,7 @@ func Layouts(src string) []string {
 		gap := src[toks[i].to:toks[i+1].from]
 		pre, post := src[:toks[i].to], src[toks[i+1].from:]
 		if strings.Contains(gap, "\n") {
-			for _, g := range []string{"\n\n", " ; note\n", "\n;{[\"\n", " \n"} {
+			for _, g := range []string{"\n\n", " ; note\n", "\n;{[\"\n", " \n", " ; naïve 語\n"} {
 				out = append(out, pre+strings.Replace(gap, "\n", g, 1)+post)
 			}
 			continue
@@ -118,7 +118,7 @@ func Layouts(src string) []string {
 			out = append(out, pre+"\n"+gap+post, pre+" ; c\n\n"+post)
 		}
 	}
-	for _, tail := range []string{"\n", "\n\n", " ; c", " ", "\n; c\n"} {
+	for _, tail := range []string{"\n", "\n\n", " ; c", " ", "\n; c\n", " ; é"} {
 		out = append(out, src+tail)
 	}
 	out = append(out, " "+src, "\t"+src)
